@@ -710,6 +710,10 @@ func (w *World) modTarget(env *CEnv, e *CExpr) []modTarget {
 					out = append(out, modTarget{key: w.fieldKey(p.Elem(), i), idx: x.T})
 				}
 				return out
+			case "cellInt":
+				// the pointer-sized cell at reference x (whatever its pointee type)
+				x := w.eval(env, e.Args[1])
+				return []modTarget{{key: w.cellKey(SInt), idx: x.T}}
 			case "cell":
 				x := w.eval(env, e.Args[1])
 				return []modTarget{{key: w.cellKey(w.sortOf(deref(x.Typ))), idx: x.T}}
